@@ -1,5 +1,5 @@
 """C18 - Used-timezone discovery is complete; adding missing timezones closes it."""
-from datetime import date, datetime, timedelta
+from datetime import date, datetime, timedelta, timezone
 
 from hypothesis import strategies as st
 
@@ -88,6 +88,12 @@ def judge(case):
                     ob.add("COMMENT", "as in", parameters={"TZID": zone_})
                     tz.add_component(ob)
                 cal.add_component(tz)
+            elif pre["kind"] == "renamed":
+                # a VTIMEZONE that was given a second TZID through the API (add appends): an odd component the queries must survive
+                tz = Timezone()
+                tz.add("TZID", pre["tzid"])
+                tz.add("TZID", pre["tzid"] + "-renamed")
+                cal.add_component(tz)
             elif pre["kind"] == "stub":
                 tz = Timezone()
                 tz.add("TZID", pre["tzid"])
@@ -162,7 +168,10 @@ def judge(case):
     try:
         kw = {"default": dict(first_date=WINDOW[0], last_date=WINDOW[1]), "none": {}, "first-beyond-default-last": dict(first_date=date(2040, 1, 1)),
               "last-before-default-first": dict(last_date=date(1969, 12, 31)), "equal": dict(first_date=date(2021, 1, 1), last_date=date(2021, 1, 1)),
-              "reversed": dict(first_date=date(2022, 1, 1), last_date=date(2021, 1, 1))}[case.get("window") or "default"]
+              "reversed": dict(first_date=date(2022, 1, 1), last_date=date(2021, 1, 1)),
+              "aware-datetimes": dict(first_date=datetime(2020, 1, 1, 12, 0, tzinfo=timezone.utc), last_date=datetime(2021, 6, 1, 12, 0, tzinfo=timezone.utc)),
+              "naive-datetimes": dict(first_date=datetime(2020, 1, 1, 12, 30), last_date=datetime(2021, 6, 1, 0, 0)),
+              "zoned-datetimes": dict(first_date=datetime(2020, 1, 1, tzinfo=__import__("zoneinfo").ZoneInfo("Asia/Tokyo")), last_date=datetime(2021, 6, 1, tzinfo=__import__("zoneinfo").ZoneInfo("America/New_York")))}[case.get("window") or "default"]
         for _ in range(case["calls"]):
             cal.add_missing_timezones(**kw)
             snapshots.append((len(cal.subcomponents), cal.to_ical()))
@@ -276,7 +285,7 @@ def cases(draw):
     tree = {"c": "VCALENDAR", "p": [["PRODID", {"k": "text", "v": "-//verif//c18"}]], "s": draw(st.lists(_comp(3), min_size=1, max_size=4))}
     pre = []
     ids = sorted(spec_ids(tree))
-    kinds = draw(st.lists(st.sampled_from(["used", "unused", "unknown-stub", "none", "own-zone"]), max_size=3, unique=True))
+    kinds = draw(st.lists(st.sampled_from(["used", "unused", "unknown-stub", "none", "own-zone", "renamed"]), max_size=3, unique=True))
     path = draw(st.sampled_from(["api", "api", "parsed"]))
     for k in kinds:
         if k == "used":
@@ -291,13 +300,15 @@ def cases(draw):
             pre.append({"kind": "stub", "tzid": draw(st.sampled_from(UNKNOWN + ["Unused/Stub"]))})
         elif k == "none":
             pre.append({"kind": "none"})
+        elif k == "renamed" and path == "api":
+            pre.append({"kind": "renamed", "tzid": draw(st.sampled_from(["Own/Renamed", KNOWN[0]]))})
         elif k == "own-zone":
             pre.append({"kind": "own-zone", "tzid": "Own/Zone", "zones": draw(st.lists(st.sampled_from(KNOWN + UNKNOWN[:1]), min_size=1, max_size=2))})
     edits = draw(st.lists(st.fixed_dictionaries({"node": st.integers(0, 5), "op": st.sampled_from(["set", "set", "exdate", "param", "drop"]),
                                                   "v": _wall, "tz": st.sampled_from(KNOWN + UNKNOWN[:1])}), max_size=3))
     edits = [dict(e, tz=e["tz"] if e["op"] == "param" or e["tz"] in KNOWN else KNOWN[0]) for e in edits]
     return {"provider": draw(st.sampled_from(["zoneinfo", "pytz"])), "path": path, "tree": tree, "pre": pre, "calls": draw(st.integers(1, 3)), "edits": edits,
-            "tuple_params": draw(st.booleans()), "window": draw(st.sampled_from(["default", "default", "default", "none", "first-beyond-default-last", "last-before-default-first", "equal", "reversed"]))}
+            "tuple_params": draw(st.booleans()), "window": draw(st.sampled_from(["default", "default", "default", "none", "first-beyond-default-last", "last-before-default-first", "equal", "reversed", "aware-datetimes", "naive-datetimes", "zoned-datetimes"]))}
 
 
 def streams(tier):
